@@ -316,8 +316,145 @@ def build_tasks(seed, tier='quick', valid_comps=None):
                     tasks.append(dict(dim=dim, method='<init>', module='_algorithm_setup', seed=seed, kind='x_nonfinite',
                                       param=axis + '_data', vclass=f'{bad}@{pos}', bad=bad, pos=pos, axis=axis,
                                       claimed=True))
+    # (h) objects with a HISTORY: the same invalid final call after 1-3 earlier calls on the same object
+    tasks += history_tasks(seed)
     for i, t in enumerate(tasks):
         t['id'] = i
+    return tasks
+
+
+def history_patterns(two_d):
+    """earlier events on the object: accepted calls, calls rejected up front, calls rejected INSIDE an inner fit
+    of each optimizer (ValueError and TypeError), user toggles of public attributes."""
+    lam = 1e2 if two_d else 1e3
+    pats = [
+        ('accepted_same', [{'call': '<same>', 'kw': {}}]),
+        ('accepted_other', [{'call': 'arpls', 'kw': {'lam': lam}}]),
+        ('rejected_upfront', [{'call': 'asls', 'kw': {'lam': -1.0}}]),
+        ('rejected_data', [{'call': 'arpls', 'kw': {'lam': lam}, 'data': 'nan'}]),
+        ('toggle_solver', [{'toggle': 'banded_solver', 'value': 3}]),
+        ('toggle_solver_invalid', [{'toggle': 'banded_solver', 'value': 7}]),
+        ('toggle_pentapy', [{'toggle': 'pentapy_solver', 'value': 1}]),
+    ]
+    opts = (('adaptive_minmax', {'poly_order': 2, 'method': 'imodpoly'}, {'num_std': -1}),
+            ('collab_pls', {}, {'lam': -1.0}))
+    opts += ((('individual_axes', {}, {'lam': -1.0}),) if two_d else
+             (('optimize_extended_range', {}, {'p': 2.0}), ('custom_bc', {}, {'lam': -1.0})))
+    for name, kw, bad_kw in opts:
+        pats.append((f'inner_value_error:{name}', [{'call': name, 'kw': dict(kw, method_kwargs=bad_kw)}]))
+        pats.append((f'inner_type_error:{name}', [{'call': name, 'kw': dict(kw, method_kwargs={'not_a_keyword': 1})}]))
+    return pats
+
+
+def history_tasks(seed):
+    import random
+    tasks = []
+    for two_d in (False, True):
+        dim = '2d' if two_d else '1d'
+        pats = history_patterns(two_d)
+        fillers = [p for p in pats if p[0] in ('accepted_other', 'rejected_upfront', 'accepted_same')]
+        for name in M.method_names(two_d):
+            if name == 'interp_pts':
+                continue
+            module = method_module(name, two_d)
+            params = method_params(name, two_d)
+            finals = [('data:nan', {'data': 'nan'}), ('data:pos_inf', {'data': 'pos_inf'}),
+                      ('data:short', {'data': 'short'})]
+            if 'weights' in params and module != 'classification' and name != 'adaptive_minmax':
+                finals.append(('weights:nan', {'weights': 'nan'}))
+            for par in params:
+                if par in SCALAR_PARAMS and scalar_in_scope(par, name, two_d, module) \
+                        and not (name in ('custom_bc', 'rubberband', 'dietrich')):
+                    cls, val, claimed = value_classes(par, name, two_d)[0]
+                    if claimed:
+                        finals.append((f'{par}:{cls}', {'scalar': [par, _enc(val)]}))
+                    break
+            for pname, events in pats:
+                rnd = random.Random(f'{seed}-{dim}-{name}-{pname}')
+                for fname, final in finals:
+                    # 1-3 earlier events: the pattern plus 0-2 fillers, in a seeded order
+                    hist = [dict(e) for e in events]
+                    for _ in range(rnd.randint(0, 2)):
+                        hist.insert(rnd.randint(0, len(hist)), dict(rnd.choice(fillers)[1][0]))
+                    tasks.append(dict(dim=dim, method=name, module=module, seed=seed, kind='history',
+                                      param=f'hist[{pname}]', vclass=fname, history=_enc(hist), final=final,
+                                      with_x=rnd.random() < 0.7, claimed=True))
+    return tasks
+
+
+def _history_run(t, two_d, x, z, y):
+    from pybaselines import Baseline, Baseline2D
+    name = t['method']
+
+    def data_of(kind):
+        if kind == 'nan' or kind == 'pos_inf':
+            yy = y.copy()
+            yy[positions(yy.shape, 'interior')] = BADVAL[kind]
+            return yy
+        if kind == 'short':
+            return y[:-1]
+        return y
+
+    def new_fitter():
+        if two_d:
+            return Baseline2D(x, z) if t['with_x'] else Baseline2D()
+        return Baseline(x) if t['with_x'] else Baseline()
+
+    def call(fit, meth, kw, data='clean'):
+        d = data_of(data)
+        if two_d:
+            return M.run_2d(meth, x, z, d, fitter=fit, **kw)
+        return M.run_1d(meth, x, d, fitter=fit, **kw)
+
+    def final(fit):
+        f = t['final']
+        kw, data = {}, 'clean'
+        if 'data' in f:
+            data = f['data']
+        if 'weights' in f:
+            w = np.ones_like(y)
+            w[positions(w.shape, 'interior')] = NAN
+            kw['weights'] = w
+        if 'scalar' in f:
+            kw[f['scalar'][0]] = _dec(f['scalar'][1])
+        try:
+            call(fit, name, kw, data)
+            return 'returned'
+        except Exception as exc:  # noqa
+            return type(exc).__name__
+
+    fit = new_fitter()
+    if not t['with_x']:
+        # the object learns its size from a first accepted call
+        try:
+            call(fit, 'arpls', {'lam': 1e2 if two_d else 1e3})
+        except Exception:  # noqa
+            pass
+    prior = []
+    for ev in _dec(t['history']):
+        try:
+            if 'toggle' in ev:
+                setattr(fit, ev['toggle'], ev['value'])
+            else:
+                call(fit, name if ev['call'] == '<same>' else ev['call'], ev.get('kw', {}), ev.get('data', 'clean'))
+            prior.append('ok')
+        except Exception as exc:  # noqa
+            prior.append(type(exc).__name__)
+    got = final(fit)
+    fresh_fit = new_fitter()
+    if not t['with_x']:
+        try:
+            call(fresh_fit, 'arpls', {'lam': 1e2 if two_d else 1e3})
+        except Exception:  # noqa
+            pass
+    fresh = final(fresh_fit)
+    if got != fresh:
+        return f'differs', f'after history {prior}: {got}; fresh object: {fresh}'
+    return got, f'prior={prior}'
+
+
+def _unused_tail():
+    tasks = []
     return tasks
 
 
@@ -585,6 +722,9 @@ def run_task(t):
                     fit.arpls(y, lam=1e2)
                 else:
                     fit.arpls(y, lam=1e3)
+            elif kind == 'history':
+                out = _history_run(t, two_d, x, z, y)
+                return out
             elif kind in ('entry_nonfinite', 'entry_shape', 'control_nocheck'):
                 _entry_call(t, name, two_d, x, z, y)
             elif kind == 'x_nonfinite':
